@@ -590,12 +590,34 @@ def run(ck: Check) -> None:
             if len(ck.mismatches) < 12:
                 ck.mismatches.append({"corr": "corr:cli-gpg-sign/exit-status+file", "line": glines[2 * gi + 1][:800], "impl": f"exit={rc2} printed={printed}", "model": m2[:300], "tag": "lookup:" + kind, "meta": {"stderr": err2[-200:]}, "stdout_encoding": "utf-8"})
 
+    # control-C while the signer is asked (the passphrase prompt): whatever the tool prints, it has not signed — the status is not zero and the file is as it was
+    for gi, ep in enumerate(ENTRY_POINTS):
+        sk = gen.key(gi)
+        env0 = gen.envelope(gen.root_md([sk], 1, [gen.key(7)], 1, version=gi + 1))
+        fb = gen.oracle_bytes(env0)
+        gf = os.path.join(d, f"gpgint{gi}.json")
+        with open(gf, "wb") as f:
+            f.write(fb)
+        rc, out, err = run_ep(ep, script, ["gpg-sign", FPR, gf], d, canned={"oh": "04001608", "sg": "ab" * 64, "q": sk.hex, "interrupt": True})
+        ck.evaluations += 1
+        ck.oracle_checks += 1
+        ck.count(f"gpg-sign:interrupted:exit{rc}")
+        after = open(gf, "rb").read() if os.path.exists(gf) else None
+        if rc == 0 or after != fb:
+            ck.violation("gpg-sign was interrupted while the signer was asked and exited with status zero / modified the file", {"entry_point": ep, "exit_status": rc, "file_unchanged": after == fb, "stdout": out[-200:]},
+                         "cli-gpg-zero-unsigned:interrupted")
     # the interactive modify-metadata editor against its model (Model/CliEdit.lean): scripts of typed lines on stdin; exit status and every file written
     import subprocess as _sp
     ed_dir = os.path.join(d, "edit")
     os.makedirs(ed_dir, exist_ok=True)
     sk2 = gen.key(4)
     def rand_script(i, has_role):
+        if i % 8 == 3 and has_role:
+            # directed: a threshold is edited, then two holders sign one after the other, then the result is written — both signatures are in the file
+            return ["7", "root", "2", "2", sk2.seed.hex(), "2", gen.key(5).seed.hex(), "0", f"out{i}-two-signers.json"]
+        if i % 8 == 5:
+            # directed: open and save without any change (whatever is displayed in between is display only)
+            return ["0", f"out{i}-unchanged.json"]
         lines, n = [], rng.randint(1, 6)
         for _ in range(n):
             c = rng.choice(["0", "1", "2", "2", "7", "7", "3", "4", "5", "6", "8", "9", "x", "", "12", "-1", " 1 ", "\u0660", "1.0", "07", "+2", "1_0", "\u0667"])
